@@ -285,7 +285,7 @@ let handle_smtp (kind : string) (ins : string list) (outs : string list) : bool 
                  | _ -> ()) dlg) streams;
              if status <> "ok" then add "C03:session-error";
              let norm d = if par then sort_within d else d in
-             let show_store = if kind = "asm" || kind = "asmr" then show_store_asm else show_store in
+             let show_store = if kind = "asm" || kind = "asmtls" || kind = "asmr" then show_store_asm else show_store in
              let store_ok =
                kind = "asmr" ||     (* replies only: the store of this case has a size limit the session model does not carry *)
                norm (show_store !ent_all) = dump ||
@@ -347,5 +347,5 @@ let handle_smtp (kind : string) (ins : string list) (outs : string list) : bool 
 let () =
   Mlutil.iter_lines (fun line ->
     let (kind, ins, outs) = Mlutil.split_case line in
-    if (kind = "smtp" || kind = "smtppar" || kind = "smtprm" || kind = "asm" || kind = "asmr" || kind = "lua" || kind = "luapar") && handle_smtp kind ins outs then ()
+    if (kind = "smtp" || kind = "smtppar" || kind = "smtprm" || kind = "asm" || kind = "asmtls" || kind = "asmr" || kind = "lua" || kind = "luapar") && handle_smtp kind ins outs then ()
     else Mlutil.print_model ["UNKNOWN-KIND"] "ok")
